@@ -131,8 +131,11 @@ def families(tier, seed):
                             continue
                         for swap in ((False,) if tier == 'quick' and fi > 0 else (False, True)):
                             method = (fi % 2 == 1)
+                            reach = REACH.get(tp, ())
+                            if tp == 'cross' and all(k in ('Line', 'Plane') for k in (ka, kb)):
+                                reach = ('Point',)       # two unbounded carriers that cross always meet
                             fams.append(Family('%s-%s/%s/%s/%s%s' % (ka, kb, tp, tag, 'swap' if swap else 'fwd', '/m' if method else ''),
-                                               fam_pair, (ka, kb, tp, fr_name, perm, swap, method), must_reach=REACH.get(tp, ())))
+                                               fam_pair, (ka, kb, tp, fr_name, perm, swap, method), must_reach=reach))
     return fams
 
 
